@@ -4,36 +4,37 @@
 
 _Bool exc; int exc_kind;
 unsigned int CAP_N, CAP_M; unsigned long ALLOC_MAX;
-Elem *WP[NW + 1]; int WL[NW + 1]; int WMF[NW + 1]; int WV[NW + 1]; int WTOUCH[NW + 1];
+Elem *WP[NW + 1]; int WS[NW + 1];
 Elem *WB; int WBL; unsigned long WBN; int WBA;
-unsigned long elem_ops, alloc_calls, dealloc_calls, gen_calls; unsigned int used_kinds;
+unsigned long alloc_calls, dealloc_calls, gen_calls; unsigned int used_kinds;
 
-#define FORALLW(X) X (0) X (1) X (2) X (3)
-#define FORNW(X)   X (0) X (1) X (2)
+#define FORALLW(X) X (0) X (1) X (2)
+#define FORNW(X)   X (0) X (1)
 #define THROW(kind) do { exc = 1; exc_kind = (kind); } while (0)
-#define METER(k) do { elem_ops++; used_kinds |= (k); } while (0)
+#define METER(k) do { used_kinds |= (k); } while (0)
 
 /* ---- cell helpers ------------------------------------------------------------------------- */
-#define REQ_RAW1(i)  __CPROVER_assert (!(p == WP[i] && WL[i]), "[C03] element constructed over a live element");
-#define REQ_LIVE_P1(i) __CPROVER_assert (!(p == WP[i] && !WL[i]), "[C03] operation on storage that holds no live element");
-#define REQ_LIVE_S1(i) __CPROVER_assert (!(src == WP[i] && !WL[i]), "[C03] read of storage that holds no live element");
-#define GET1(i) if (src == WP[i]) { v = WV[i]; mf = WMF[i]; WTOUCH[i] = 1; }
-#define SETLIVE1(i) if (p == WP[i]) { WL[i] = 1; WV[i] = v; WMF[i] = mf; WTOUCH[i] = 1; }
-#define SETMF1(i) if (src == WP[i]) { WMF[i] = 1; WV[i] = junk; WTOUCH[i] = 1; }
-#define SETDEAD1(i) if (p == WP[i]) { WL[i] = 0; WTOUCH[i] = 1; }
+#define REQ_RAW1(i)  __CPROVER_assert (!(p == WP[i] && LIVE (i)), "[C03] element constructed over a live element");
+#define REQ_LIVE_P1(i) __CPROVER_assert (!(p == WP[i] && RAW (i)), "[C03] operation on storage that holds no live element");
+#define REQ_LIVE_S1(i) __CPROVER_assert (!(src == WP[i] && RAW (i)), "[C03] read of storage that holds no live element");
+#define GET1(i) if (src == WP[i]) { v = WS[i]; }
+#define SET1(i) if (p == WP[i]) { WS[i] = v; }
+#define SETMF1(i) if (src == WP[i]) { WS[i] = S_MF; }
+#define SETDEAD1(i) if (p == WP[i]) { WS[i] = S_RAW; }
+static int nondet_value (void) { int v = nondet_int (); __CPROVER_assume (v != S_RAW); return v; }   /* some live state */
 
 static void req_storage_w (const void *p) { __CPROVER_assert (__CPROVER_w_ok (p, ESZ), "[C03,C12,C13] element storage lies inside memory the container owns"); }
 static void req_storage_r (const void *p) { __CPROVER_assert (__CPROVER_r_ok (p, ESZ), "[C03,C13] element read lies inside a live object"); }
 
 void env_fresh_object (const void *obj)
 {
-#define FRESH1(i) __CPROVER_assume (!(SAMEOBJ (WP[i], obj) && WL[i]));
+#define FRESH1(i) __CPROVER_assume (!(SAMEOBJ (WP[i], obj) && LIVE (i)));
   FORNW (FRESH1)
 }
 
 void env_track_temp (Elem *cell)
 {
-  WP[WT] = cell; WL[WT] = 0; WMF[WT] = 0; WV[WT] = nondet_int (); WTOUCH[WT] = 0;
+  WP[WT] = cell; WS[WT] = S_RAW;
 }
 
 /* ---- element operations -------------------------------------------------------------------- */
@@ -43,8 +44,8 @@ void env_elem_construct_default (Elem *p)
   FORALLW (REQ_RAW1)
   METER (K_DEFAULT);
   if (DEFAULT_MAY_THROW && nondet_bool ()) { THROW (EXC_ELEMENT); return; }
-  int v = 0, mf = 0;
-  FORALLW (SETLIVE1)
+  int v = 0;
+  FORALLW (SET1)
 }
 
 void env_elem_construct_copy (Elem *p, const Elem *src)
@@ -53,9 +54,9 @@ void env_elem_construct_copy (Elem *p, const Elem *src)
   FORALLW (REQ_RAW1) FORALLW (REQ_LIVE_S1)
   METER (K_COPY);
   if (COPY_MAY_THROW && nondet_bool ()) { THROW (EXC_ELEMENT); return; }
-  int v = nondet_int (), mf = nondet_bool ();
+  int v = nondet_value ();
   FORALLW (GET1)
-  FORALLW (SETLIVE1)
+  FORALLW (SET1)
 }
 
 void env_elem_construct_move (Elem *p, Elem *src)
@@ -64,10 +65,10 @@ void env_elem_construct_move (Elem *p, Elem *src)
   FORALLW (REQ_RAW1) FORALLW (REQ_LIVE_S1)
   METER (K_MOVE);
   if (MOVE_MAY_THROW && nondet_bool ()) { THROW (EXC_ELEMENT); return; }
-  int v = nondet_int (), mf = nondet_bool (), junk = nondet_int ();
+  int v = nondet_value ();
   FORALLW (GET1)
   FORALLW (SETMF1)
-  FORALLW (SETLIVE1)
+  FORALLW (SET1)
 }
 
 void env_elem_construct_int (Elem *p, int x)
@@ -76,8 +77,9 @@ void env_elem_construct_int (Elem *p, int x)
   FORALLW (REQ_RAW1)
   METER (K_CONVERT);
   if (COPY_MAY_THROW && nondet_bool ()) { THROW (EXC_ELEMENT); return; }
-  int v = x, mf = 0;
-  FORALLW (SETLIVE1)
+  int v = x;
+  if (v == S_RAW || v == S_MF) v = 0;
+  FORALLW (SET1)
 }
 
 void env_elem_destroy (Elem *p)
@@ -93,11 +95,11 @@ Elem *env_op_assign__pE_pcE (Elem *p, const Elem *src)
   req_storage_w (p); req_storage_r (src);
   FORALLW (REQ_LIVE_P1) FORALLW (REQ_LIVE_S1)
   METER (K_ASSIGN_COPY);
-  int v = nondet_int (), mf = nondet_bool ();
+  int v = nondet_value ();
   if (ASSIGN_COPY_MAY_THROW && nondet_bool ())
-    { THROW (EXC_ELEMENT); mf = 1; v = nondet_int (); FORALLW (SETLIVE1) return p; }   /* basic guarantee of T: valid, unspecified */
+    { THROW (EXC_ELEMENT); v = S_MF; FORALLW (SET1) return p; }   /* basic guarantee of T: valid, unspecified */
   FORALLW (GET1)
-  FORALLW (SETLIVE1)
+  FORALLW (SET1)
   return p;
 }
 
@@ -106,12 +108,12 @@ Elem *env_op_assign__pE_rrE (Elem *p, Elem *src)
   req_storage_w (p); req_storage_r (src);
   FORALLW (REQ_LIVE_P1) FORALLW (REQ_LIVE_S1)
   METER (K_ASSIGN_MOVE);
-  int v = nondet_int (), mf = nondet_bool (), junk = nondet_int ();
+  int v = nondet_value ();
   if (ASSIGN_MOVE_MAY_THROW && nondet_bool ())
-    { THROW (EXC_ELEMENT); mf = 1; v = nondet_int (); FORALLW (SETLIVE1) return p; }
+    { THROW (EXC_ELEMENT); v = S_MF; FORALLW (SET1) return p; }
   FORALLW (GET1)
   if (p != src) { FORALLW (SETMF1) }
-  FORALLW (SETLIVE1)
+  FORALLW (SET1)
   return p;
 }
 
@@ -122,13 +124,13 @@ void env_swap__pE_pE (Elem *p, Elem *q)
   FORALLW (REQ_LIVE_P1) FORALLW (REQ_LIVE_S1)
   METER (K_SWAP);
   if (SWAP_MAY_THROW && nondet_bool ()) { THROW (EXC_ELEMENT); return; }
-  int v = nondet_int (), mf = nondet_bool ();
+  int v = nondet_value ();
   FORALLW (GET1)
-  int v2 = nondet_int (), mf2 = nondet_bool ();
-#define GETP1(i) if (p == WP[i]) { v2 = WV[i]; mf2 = WMF[i]; }
+  int v2 = nondet_value ();
+#define GETP1(i) if (p == WP[i]) { v2 = WS[i]; }
   FORALLW (GETP1)
-  FORALLW (SETLIVE1)
-#define SETQ1(i) if (q == WP[i]) { WL[i] = 1; WV[i] = v2; WMF[i] = mf2; WTOUCH[i] = 1; }
+  FORALLW (SET1)
+#define SETQ1(i) if (q == WP[i]) { WS[i] = v2; }
   FORALLW (SETQ1)
 }
 
@@ -137,11 +139,9 @@ _Bool env_op_eq__pcE_pcE (const Elem *p, const Elem *src)
   req_storage_r (p); req_storage_r (src);
   FORALLW (REQ_LIVE_P1) FORALLW (REQ_LIVE_S1)
   METER (K_COMPARE);
-  int v = nondet_int (), mf = 1, v2 = nondet_int (), mf2 = 1;
-#define GETS1(i) if (src == WP[i]) { v = WV[i]; mf = WMF[i]; }
-#define GETP2(i) if (p == WP[i]) { v2 = WV[i]; mf2 = WMF[i]; }
-  FORALLW (GETS1) FORALLW (GETP2)
-  if (mf || mf2) return nondet_bool ();
+  int v = S_MF, v2 = S_MF;
+  FORALLW (GET1) FORALLW (GETP1)
+  if (v == S_MF || v2 == S_MF) return nondet_bool ();
   return v == v2;
 }
 
@@ -150,9 +150,9 @@ _Bool env_op_lt__pcE_pcE (const Elem *p, const Elem *src)
   req_storage_r (p); req_storage_r (src);
   FORALLW (REQ_LIVE_P1) FORALLW (REQ_LIVE_S1)
   METER (K_COMPARE);
-  int v = nondet_int (), mf = 1, v2 = nondet_int (), mf2 = 1;
-  FORALLW (GETS1) FORALLW (GETP2)
-  if (mf || mf2) return nondet_bool ();
+  int v = S_MF, v2 = S_MF;
+  FORALLW (GET1) FORALLW (GETP1)
+  if (v == S_MF || v2 == S_MF) return nondet_bool ();
   return v2 < v;
 }
 
@@ -164,7 +164,7 @@ static Elem *do_allocate (struct Alloc *a, unsigned long n)
   if (nondet_bool ()) { THROW (EXC_BAD_ALLOC); return nondet_elem_ptr (); }
   Elem *p = malloc (n * ESZ);
   __CPROVER_assume (p != 0);
-#define FRESHBLK1(i) __CPROVER_assume (!(SAMEOBJ (WP[i], p) && WL[i]));
+#define FRESHBLK1(i) __CPROVER_assume (!(SAMEOBJ (WP[i], p) && LIVE (i)));
   FORNW (FRESHBLK1)
   if (WB == p) { __CPROVER_assume (!WBL); WBL = 1; WBN = n; WBA = a->id; }
   return p;
@@ -179,7 +179,7 @@ void env_deallocate__pA_pE_ul (struct Alloc *a, Elem *p, unsigned long n)
   __CPROVER_assert (__CPROVER_OBJECT_SIZE (p) == n * ESZ, "[C04] deallocate with an element count different from the allocation's");
   __CPROVER_assert (!(p == WB && !(WBL && WBN == n)), "[C04] deallocate of a block that is not live with this count");
   __CPROVER_assert (!(p == WB && WBA != a->id), "[C04,C07] deallocate through an allocator not equal to the one that allocated the block");
-#define NOLIVE1(i) __CPROVER_assert (!(SAMEOBJ (WP[i], p) && WL[i]), "[C03] block given back while it still holds a live element");
+#define NOLIVE1(i) __CPROVER_assert (!(SAMEOBJ (WP[i], p) && LIVE (i)), "[C03] block given back while it still holds a live element");
   FORALLW (NOLIVE1)
   dealloc_calls++;
   free (p);
